@@ -33,8 +33,10 @@ COMPONENTS = {
              "stdout/stderr/logging (sunk)"]}
 ASSUMPTIONS = ["re-initialisation is issued at quiescence (initialize while the run thread is STOPPING is a grace-period case, see C04)"]
 KINDS = ["counter", "tally", "wtally", "persistent"]
+HARNESS_ACTIONS = ("settle", "poll", "poll_stopped", "sleep", "drain")
 PRIORS = ["never", "steps", "pause", "bounded", "ended", "fault", "refused",
-          "init_from_handler"]
+          "init_from_handler", "init_from_handler_after_stop", "ended_polling",
+          "ended_polling"]
 
 
 def init_worker():
@@ -68,6 +70,13 @@ def generate(seed, tier, idx=0):
     if prior == "init_from_handler":
         al = prog["events"][rng.choice(eids)]
         al.insert(rng.randint(0, len(al)), ["cmd", "initialize"])
+    if prior == "init_from_handler_after_stop":
+        # the handler requests a stop and then tries to re-initialise while the
+        # run thread (itself) is still STOPPING: refused, nothing may change
+        al = prog["events"][rng.choice(eids)]
+        i = rng.randint(0, len(al))
+        al.insert(i, ["cmd", "initialize"])
+        al.insert(i, ["cmd", "stop"])
     ref = devscommon.make_ref(case)
     ref.initialize()
     cmds = [["initialize"], ["settle"]]
@@ -88,7 +97,7 @@ def generate(seed, tier, idx=0):
         for _ in range(rng.randint(1, 4)):
             if ref.can_start() and not ref.step_at_boundary():
                 apply(["step"])
-    elif prior in ("pause", "fault", "init_from_handler"):
+    elif prior in ("pause", "fault", "init_from_handler", "init_from_handler_after_stop"):
         apply(["start"])
     elif prior == "bounded":
         times = [t for t in ref.pending_times() if ref.clock <= t < ref.end]
@@ -100,6 +109,17 @@ def generate(seed, tier, idx=0):
         while ref.run_state != "ENDED" and guard < 6 and ref.can_start():
             apply(["start"])
             guard += 1
+    elif prior == "ended_polling":
+        # the caller polls until the simulator no longer reports 'running' and
+        # re-initialises at once, while the run thread may still be finishing
+        guard = 0
+        while ref.run_state != "ENDED" and guard < 6 and ref.can_start():
+            devscommon.ref_apply(ref, ["start"])
+            cmds.extend([["start"], ["poll_stopped"]])
+            guard += 1
+        case["sched"] = {"kind": rng.choice(["site", "site", "pct"]), "seed": seed,
+                         "p": rng.choice([0.05, 0.02]), "q": rng.choice([0.5, 0.3]),
+                         "d": rng.choice([1, 2, 3]), "step_cost_us": rng.choice([0, 1, 10])}
     elif prior == "refused":
         guard = 0
         while ref.run_state != "ENDED" and guard < 6 and ref.can_start():
@@ -118,7 +138,7 @@ def generate(seed, tier, idx=0):
         if rep2[2] <= 0:
             rep2[2] = prog["rep"][2]
     init2 = ["initialize"] + ([rep2] if rep2 else [])
-    case["reinit_at"] = len([c for c in cmds if c[0] != "settle"])
+    case["reinit_at"] = len([c for c in cmds if c[0] not in HARNESS_ACTIONS])
     devscommon.ref_apply(ref, init2)
     tail = [init2, ["settle"]]
     guard = 0
@@ -128,7 +148,7 @@ def generate(seed, tier, idx=0):
         guard += 1
     case["commands"] = cmds + tail
     case["tail"] = tail
-    if rng.random() < 0.2:
+    if prior != "ended_polling" and rng.random() < 0.2:
         case["sched"] = {"kind": rng.choice(["pct", "site"]), "seed": seed, "p": 0.01,
                          "q": 0.15, "d": rng.choice([1, 2]),
                          "step_cost_us": rng.choice([0, 10])}
@@ -136,11 +156,18 @@ def generate(seed, tier, idx=0):
 
 
 OBS_KEYS = ("exe", "ntf", "req", "draw")
+HARNESS_ACTIONS = ("settle", "poll", "poll_stopped", "sleep", "drain")
 
 
-def observable(H, start=0):
+def observable(H, start=0, init_return=None):
+    """Observable items of a replication.  Notifications that reach the
+    collector between the invoke and the return of the (re-)initialize belong
+    to the previous replication's subscription (the collector is re-subscribed
+    only when initialize has returned) and are left out."""
     out = []
-    for h in H[start:]:
+    for pos, h in enumerate(H[start:], start):
+        if init_return is not None and pos < init_return and h[0] == "ntf":
+            continue
         if h[0] == "exe":
             out.append(("exe", h[1], h[2]))
         elif h[0] == "ntf":
@@ -190,7 +217,7 @@ def execute(case):
         if t.aborted:
             findings.append(("harness", "twin run aborted: %s" % t.aborted))
         else:
-            a = observable(H, start_pos)
+            a = observable(H, start_pos, c2["return_pos"])
             b = observable(t.hist.H, 0)
             # the twin's own initialize quiet record precedes its start
             d = devscommon.first_diff(a, b)
@@ -223,18 +250,14 @@ def execute(case):
     if ext.errors and not findings:
         findings.append(("observation-raised", ext.errors[0]))
     cnt["prior:" + case.get("prior", "?")] = 1
-    for k, v in r.faults.items():
-        cnt["fault:" + k] = v
-    if r.det.n_switch:
-        cnt["fault:preempt"] = r.det.n_switch
     cnt["fault:reinitialize"] = 1
     res = {"digest": r.digest(), "clean": r.clean, "counters": cnt,
            "final_case": devscommon.replay_form(case, r),
-           "sums": {"sim_wall_seconds": r.det.clock - r.det.t0,
-                    "yield_points": r.det.step},
+           "sums": {},
            "nontrivial": nontrivial,
            "case_digest": common.digest8([case["program"], case["stats"], case["commands"]]),
            "observed": {"prior": case.get("prior"), "final": r.final if not r.aborted else None}}
+    devscommon.detsim_stats(res, case, r)
     if findings:
         res["status"] = "violation"
         res["check_id"], res["message"] = findings[0]
@@ -262,7 +285,7 @@ def shrink(case, fails):
     def rebuild(pc):
         c = _c.deepcopy(case)
         c["commands"] = pc + case["tail"]
-        c["reinit_at"] = len([x for x in pc if x[0] != "settle"])
+        c["reinit_at"] = len([x for x in pc if x[0] not in HARNESS_ACTIONS])
         return c
     head, rest = prior_cmds[:2], prior_cmds[2:]
     rest = shr.ddmin(rest, lambda t: fails(rebuild(head + t)))
